@@ -97,7 +97,7 @@ func main() {
 			"histories with a compute runtime (profile runtime and ~1/3 of the others: group size 2-3, backup size 0-2, max-nodes-per-entity / min-pool-size / validator-set constraints from a PRNG menu, nodes that are compute workers, compute-only nodes, nodes registered for a wrong or not yet active runtime version, nodes suspended or frozen by the runtime's liveness rule, expired nodes) additionally check every executor committee written at elect.post against eligibility recomputed from elect.pre (registered, not expired, not frozen, compute role, registered for the active deployment version, not suspended for the runtime, entity stake covers its claims, validator-set membership where demanded): members eligible, exactly group size workers and backup size backup workers or no committee, no node twice in a role, per-entity maximum, minimum pool size, committee valid for the election epoch; " +
 			"non-trivial = history with >=4 elections in which nodes were excluded for >=2 different reasons, or history with >=3 elected committees and >=2 exclusion reasons",
 		Cases: func(r *evid.Run) []chainsim.Case {
-			return chainsim.StdCases(r.Seed, r.Pick(128, 3200), r.Pick(60, 100), []string{"election", "runtime", "hostile", "registry", "election", "runtime", "runtime", "election"})
+			return chainsim.StdCases(r.Seed, r.Pick(256, 3200), r.Pick(60, 100), []string{"election", "runtime", "hostile", "registry", "election", "runtime", "runtime", "election"})
 		},
 		RunCase: runCase,
 		Floor:   10,
